@@ -555,3 +555,54 @@ def CB8(inp):
     regs = [(i, t) for i, lst in wc.items() for t, cb in lst if cb in recs]
     cl['late_reply_reaches_no_callback_of_the_new_process'] = exc is None and all(r.calls == [] for r in recs) and regs == []
     return Res(cl, nontrivial=True, obs=lambda: dict(ids=ids, calls=[show(r.calls) for r in recs], exc=show(exc)))
+
+
+class _TimeStub:
+    """time module stand-in for the tick thread: sleep() records its argument and refuses a negative one like the real one"""
+
+    def __init__(self):
+        self.sleeps = []
+
+    def sleep(self, s):
+        self.sleeps.append(s)
+        if bool(s < 0):
+            raise ValueError('sleep length must be non-negative')
+
+    def time(self):
+        return 0.0
+
+
+@obligation('X2', props=('C12', 'C05'), quick=[dict()], stubs=_STUBS2 + ('pysyncobj.syncobj.time=stub (sleep records, negative raises ValueError as the real one does)', '_onTick replaced: takes a symbolic duration on the virtual clock and raises the first time'),
+            bounds='the real _autoTickThread loop; first tick fails after any duration >= 0 (shorter or longer than autoTickPeriod), the second succeeds and requests shutdown')
+def X2(inp):
+    import pysyncobj.syncobj as so_mod
+    """the tick thread survives a failing tick of any duration: it logs, waits a non-negative time and ticks again (this is what
+    lets a node recover from a transient failure inside a replicated method); it never leaves the loop through an exception."""
+    o, tr, now = _mk_acc(inp)
+    clock = so_mod.monotonicTime
+    d = inp.real('tick_duration', 0)
+    calls = []
+
+    def fake_tick(timeToWait=0.0):
+        calls.append(timeToWait)
+        if len(calls) == 1:
+            clock.now = clock.now + d
+            raise RuntimeError('replicated method failed')
+        put(o, 'destroying', True)
+    o._onTick = fake_tick
+    o._doDestroy = lambda: None
+    import threading
+    put(o, 'initialised', threading.Event()); put(o, 'mainThread', threading.current_thread())
+    if not hasattr(tr, 'tryGetReady'):
+        tr.tryGetReady = lambda: None
+    real_time = so_mod.time
+    stub = _TimeStub()
+    so_mod.time = stub
+    try:
+        _, exc = guard(o._autoTickThread)
+    finally:
+        so_mod.time = real_time
+    cl = {'thread_does_not_die': exc is None}
+    cl['ticks_again_after_a_failed_tick'] = len(calls) == 2
+    cl['sleeps_are_non_negative'] = And([s >= 0 for s in stub.sleeps] or [True])
+    return Res(cl, nontrivial=True, obs=lambda: dict(calls=len(calls), sleeps=show(stub.sleeps), exc=show(exc)))
